@@ -182,7 +182,7 @@ partial def loop (h : IO.FS.Stream) (out : IO.FS.Stream) (ds : DState) : IO Unit
   let line ← h.getLine
   if line.isEmpty then return ()
   let (ds', outs) := step ds line
-  for o in outs do out.putStrLn o
+  if !outs.isEmpty then out.putStr (String.intercalate "\n" outs ++ "\n")
   loop h out ds'
 
 def main : IO Unit := do
